@@ -35,7 +35,7 @@ fn normalise(s: &str) -> String {
 }
 
 fn tree(cfg: &XmlCfg, ch: &[String]) -> String {
-    let (dom, _) = drive_xml(ModelDom::new(), cfg, ch, |_| {});
+    let (dom, _) = drive_xml(ModelDom::new(), cfg, ch, |_, _| {});
     model_canon(&dom, DOC, CanonOpts::default())
 }
 
@@ -96,8 +96,8 @@ pub fn check(case: &Case, st: &mut Stats) -> Result<(), String> {
         }
     }
     // RcDom agrees with ModelDom under chunking
-    let (rd, _) = drive_xml(RcDom::default(), &dflt, &case.chunks, |_| {});
-    let (rd1, _) = drive_xml(RcDom::default(), &dflt, &one, |_| {});
+    let (rd, _) = drive_xml(RcDom::default(), &dflt, &case.chunks, |_, _| {});
+    let (rd1, _) = drive_xml(RcDom::default(), &dflt, &one, |_, _| {});
     let (a, b) = (rcdom_canon(&rd.document, CanonOpts::default()), rcdom_canon(&rd1.document, CanonOpts::default()));
     if a != b {
         return Err(format!("RcDom XML tree (chunked) differs from one piece: {}", first_diff(&b, &a)));
@@ -224,7 +224,7 @@ pub fn run(ctx: &Ctx) -> Report {
     });
     rep.absorb(out);
     rep.extra.insert("exhaustive_part".into(), json!({"pool_inputs": pool.len(), "schedules": total}));
-    let out = run_random(ctx.seed, ctx.tier.pick(80_000, 4_000_000), 1200, decode, |c, st| {
+    let out = run_random(ctx.seed, ctx.tier.pick(400_000, 6_000_000), 1200, decode, |c, st| {
         if kf_charref_cr && excluded_charref_cr(&c.chunks.concat()) {
             st.exclude("KF-C15-charref-cr");
             return Ok(());
